@@ -5,6 +5,7 @@ import importlib
 PROPERTY_RULES = {
     "C02": ["r_a6", "r_e1", "r_b1"],
     "C03": ["r_a2", "r_a3"],
+    "C04": ["r_a8", "r_e1", "r_a6"],
     "C05": ["r_b1", "r_o3", "r_a2"],
     "C06": ["r_b1", "r_o3"],
     "C07": ["r_a12"],
@@ -21,6 +22,9 @@ PROPERTY_RULES = {
 LEVEL = {"C14": "proof"}
 
 CLAUSES = {
+    "C04": "every write to BytesMut.{ptr,len,cap} is justified (bounded by the allocation, paired with its companions, bytes moved before the pointer, "
+           "non-overlap guard before copy_nonoverlapping); split halves use one cut operand; merge needs all four adjacency conjuncts; Clone never shares; "
+           "the reservation helper returns false only on paths without any state write and true only through a justified cap write; request arithmetic cannot wrap",
     "C07": "no byte-buffer allocation and no byte copy is reachable from any zero-copy operation (vtable dispatch expanded), apart from verified exempt "
            "edges; clone returns the (ptr, len) it was given",
     "C08": "is_unique slot functions return constant false exactly for families whose into_mut can never hand the memory over, `count == 1` (true on the "
@@ -57,6 +61,7 @@ LEVEL_NOTE = {
     "C14": "trusted: rustc type checking/trait resolution, std slice comparison and hash impls, std views (as_bytes, deref, [..]); views show the contents (C01).",
 }
 TECHNIQUE = {
+    "C04": "per-write justification rules over MIR provenance trees and dominating guards (A8), path enumeration of the reservation helper, arithmetic taint (E1)",
     "C07": "effect reachability over the crate call graph with vtable slots expanded to all bound functions; exemptions verified by dominating guards",
     "C08": "return-value flow of the is_unique slot functions cross-checked against the take-over paths of into_mut (path summaries) + dominating-guard analysis",
     "C03": "path-sensitive linear-token accounting over MIR (acyclic path enumeration with constant folding and tag-feasibility pruning, interprocedural event summaries)",
